@@ -61,6 +61,17 @@ import logging
 logging.disable(logging.CRITICAL)
 kept = t._create_rules_with_on_day_expansion(rules_map)
 admitted = sorted([list(k) for k, v in rej.items() if v[0] in kept])
+# the same expressions inside policies of three rules: a harmless weekday rule before and after (a policy is admitted exactly
+# when each of its rules is; the verdict must not depend on the position of the offending rule)
+import copy
+harmless = lambda mon, letter: {'fromYear': 2000, 'toYear': 2010, 'inMonth': mon, 'onDay': 'Sun>=8', 'atTime': '2:00', 'atTimeSuffix': 'w',
+                                'deltaOffset': '0' if letter == 'S' else '1:00', 'letter': letter, 'rawLine': ''}
+rules_map3 = {v[0]: [harmless(3, 'D'), copy.deepcopy(v[1]), harmless(10, 'S')] for v in rej.values()}
+t3 = Transformer.__new__(Transformer)
+t3.all_removed_policies = {}
+t3._print_removed_map = lambda *a, **k: None
+kept3 = t3._create_rules_with_on_day_expansion(rules_map3)
+admitted_multi = sorted([list(k) for k, v in rej.items() if v[0] in kept3])
 # the contract on expressions that leave the year too: month 0 / 13 (what the UNTIL filter relies on)
 contract = []
 for y in range(1873, 2127, 11):
@@ -96,4 +107,4 @@ try:
     until = [[zn, y, m, dow, dom, zn in kept_z, (kept_z[zn][0].get('untilDay') if zn in kept_z else None)] for zn, y, m, dow, dom in until_cases]
 except Exception as e:
     until = [['exception', str(e)]]
-print(json.dumps({'contract': contract, 'until': until, 'n': n, 'bad': bad, 'nparse': np, 'parse_bad': parse_bad[:20], 'admitted': admitted, 'nexpr': len(rej)}))
+print(json.dumps({'contract': contract, 'until': until, 'n': n, 'bad': bad, 'nparse': np, 'parse_bad': parse_bad[:20], 'admitted': admitted, 'admitted_multi': admitted_multi, 'nexpr': len(rej)}))
